@@ -1266,6 +1266,42 @@ type Fact struct {
 	// for literals about a call (ok:… = the call returned a nil error; call:… = boolean result): the call and its env
 	Call ssa.CallInstruction
 	Env  *Env
+	// disjunction: one of the alternatives (each a conjunction) holds; produced for a materialised `a || b` / `a && b`
+	// value tested by a separate If (switch cases, named conditions)
+	Or [][]Fact
+}
+
+// sat: pred accepts the fact; a disjunction is accepted when every alternative contains an accepted fact.
+func sat(pred func(Fact) bool, f Fact) bool {
+	if len(f.Or) == 0 {
+		return pred(f)
+	}
+	for _, alt := range f.Or {
+		ok := false
+		for _, g := range alt {
+			if sat(pred, g) {
+				ok = true
+				break
+			}
+		}
+		if !ok {
+			return false
+		}
+	}
+	return true
+}
+
+func orFact(alts [][]Fact, why string) Fact {
+	var parts []string
+	for _, alt := range alts {
+		var ks []string
+		for _, g := range alt {
+			ks = append(ks, g.Key())
+		}
+		sort.Strings(ks)
+		parts = append(parts, strings.Join(ks, " & "))
+	}
+	return Fact{Atom: "or{" + strings.Join(parts, " | ") + "}", Pos: true, Why: why, Or: alts}
 }
 
 // hasArith: the integer value is computed by +, -, *, << (looking through conversions and forwarded loads).
@@ -1423,6 +1459,33 @@ func (e *Env) decode0(c ssa.Value, truth bool, why string) []Fact {
 			}
 			return out
 		}
+		if other != nil && !short {
+			// `truth` is reached either through a constant arm (the operand tested in that predecessor decided) or
+			// through the last operand: a disjunction of what each way guarantees
+			var alts [][]Fact
+			okAll := true
+			for i, ed := range b.Edges {
+				if _, isK := boolConst(ed); !isK {
+					continue
+				}
+				pb := b.Block().Preds[i]
+				iff, isIf := pb.Instrs[len(pb.Instrs)-1].(*ssa.If)
+				if !isIf || len(pb.Succs) != 2 || pb.Succs[0] == pb.Succs[1] {
+					okAll = false
+					break
+				}
+				alts = append(alts, e.decode0(iff.Cond, pb.Succs[0] == b.Block(), why))
+			}
+			if okAll && len(alts) > 0 {
+				last := e.decode0(other, truth, why)
+				for _, f := range e.factsAtBlock(otherBlk, nil) {
+					f.defs = append(f.defs, otherBlk)
+					last = append(last, f)
+				}
+				alts = append(alts, last)
+				return []Fact{orFact(alts, why), lit("cond:"+e.Term(c), truth, why)}
+			}
+		}
 		return []Fact{lit("cond:"+e.Term(c), truth, why)}
 	case *ssa.BinOp:
 		op := b.Op
@@ -1506,7 +1569,13 @@ func (e *Env) decode0(c ssa.Value, truth bool, why string) []Fact {
 		return []Fact{{Atom: "call:" + name + "(" + e.termList(args) + ")", Pos: truth, Why: why, Call: b, Env: e}}
 	case *ssa.Extract:
 		if call, ok := b.Tuple.(*ssa.Call); ok {
-			return []Fact{{Atom: "cond:" + e.Term(c), Pos: truth, Why: why, Call: call, Env: e}}
+			out := []Fact{{Atom: "cond:" + e.Term(c), Pos: truth, Why: why, Call: call, Env: e}}
+			// boolean result of a module helper with several results (`idx, found := search(list, x)`): what its
+			// returns with that result == truth guarantee
+			if sc := call.Call.StaticCallee(); sc != nil && len(sc.Blocks) > 0 && sc.Pkg != nil && strings.HasPrefix(sc.Pkg.Pkg.Path(), modPath) && e.depth < 4 && b.Type().String() == "bool" {
+				out = append(out, e.Sub(call, sc).boolReturnFactsIdx(b.Index, truth, why+" via "+sc.Name())...)
+			}
+			return out
 		}
 		return []Fact{lit("cond:"+e.Term(c), truth, why)}
 	}
@@ -1573,12 +1642,77 @@ func lastIsError(fn *ssa.Function) bool {
 	return res.Len() > 0 && res.At(res.Len()-1).Type().String() == "error"
 }
 
-// isSuccessReturn: the error result is the nil constant.
+// isSuccessReturn: the return may deliver a nil error: the error result is the nil constant, or a value that is not
+// definitely an error (`return helper(...)`, `return out, err` with err untested). Definitely an error: a package-level
+// error variable, a freshly constructed error, or a value on the non-nil side of its own nil test.
 func isSuccessReturn(r *ssa.Return) bool {
 	if len(r.Results) == 0 {
 		return false
 	}
-	return isNilConst(retval(r, len(r.Results)-1))
+	rv := retval(r, len(r.Results)-1)
+	if rv.Type().String() != "error" {
+		return isNilConst(rv)
+	}
+	return !definitelyError(rv, r.Block(), map[ssa.Value]bool{})
+}
+
+func definitelyError(v ssa.Value, at *ssa.BasicBlock, seen map[ssa.Value]bool) bool {
+	if seen[v] {
+		return true
+	}
+	seen[v] = true
+	if isNilConst(v) {
+		return false
+	}
+	switch x := v.(type) {
+	case *ssa.UnOp:
+		if _, ok := x.X.(*ssa.Global); ok && x.Op == token.MUL {
+			return true
+		}
+	case *ssa.MakeInterface:
+		return true
+	case *ssa.Call:
+		switch CalleeName(x) {
+		case "fmt.Errorf", "errors.New":
+			return true
+		}
+	case *ssa.Phi:
+		for _, ed := range x.Edges {
+			if !definitelyError(ed, at, seen) {
+				return testedNonNilAt(v, at)
+			}
+		}
+		return true
+	}
+	return testedNonNilAt(v, at)
+}
+
+// testedNonNilAt: block `at` is dominated by the non-nil side of a nil test of v.
+func testedNonNilAt(v ssa.Value, at *ssa.BasicBlock) bool {
+	refs := v.Referrers()
+	if refs == nil {
+		return false
+	}
+	for _, r := range *refs {
+		bo, ok := r.(*ssa.BinOp)
+		if !ok || !(bo.Op == token.NEQ || bo.Op == token.EQL) || !isNilConst(bo.Y) || bo.Referrers() == nil {
+			continue
+		}
+		for _, u := range *bo.Referrers() {
+			iff, ok := u.(*ssa.If)
+			if !ok || len(iff.Block().Succs) != 2 {
+				continue
+			}
+			t := iff.Block().Succs[0]
+			if bo.Op == token.EQL {
+				t = iff.Block().Succs[1]
+			}
+			if len(t.Preds) == 1 && t.Dominates(at) {
+				return true
+			}
+		}
+	}
+	return false
 }
 
 // ---------------------------------------------------------------- edges, Cut
@@ -1742,31 +1876,61 @@ func (e *Env) EdgeFacts() map[edge][]Fact {
 	// phase 2: validator summaries, computed under what the caller already knows at the call site (so that a callee
 	// guard like `if nonce > 0 && x == nil { return err }` yields x != nil for a caller that has excluded nonce == 0)
 	for _, ps := range pending {
-		callees := e.P.Callees(ps.call)
-		if len(callees) != 1 {
-			continue
-		}
-		callee := callees[0]
-		if len(callee.Blocks) == 0 || callee.Pkg == nil || !strings.HasPrefix(callee.Pkg.Pkg.Path(), modPath) {
-			continue
-		}
-		assume := e.factsAt(ps.call.Block(), ps.call, nil)
-		sub := e.Sub(ps.call, callee)
-		fs := sub.returnFactsA(isSuccessReturn, ps.why+" via "+callee.Name(), assume)
-		e.ef[ps.nilEdge] = append(e.ef[ps.nilEdge], sub.rewriteResults(ps.call, fs)...)
+		e.ef[ps.nilEdge] = append(e.ef[ps.nilEdge], e.calleeSuccessFacts(ps.call, ps.why)...)
 	}
 	return e.ef
+}
+
+// calleeSuccessFacts: what every success return of the (single, module) callee guarantees, computed under what the
+// caller knows at the call site and expressed in the caller's terms.
+func (e *Env) calleeSuccessFacts(call *ssa.Call, why string) []Fact {
+	callees := e.P.Callees(call)
+	if len(callees) != 1 {
+		return nil
+	}
+	callee := callees[0]
+	if len(callee.Blocks) == 0 || callee.Pkg == nil || !strings.HasPrefix(callee.Pkg.Pkg.Path(), modPath) || e.depth >= 4 {
+		return nil
+	}
+	assume := e.factsAt(call.Block(), call, nil)
+	sub := e.Sub(call, callee)
+	fs := sub.returnFactsA(isSuccessReturn, why+" via "+callee.Name(), assume)
+	return sub.rewriteResults(call, fs)
+}
+
+// tailCallFacts: for `return …, f(x)` (the returned error is the result of a call made in the returning block): if
+// that return succeeds the call returned nil, so the facts of its `err == nil` edge hold at the return.
+func (e *Env) tailCallFacts(r *ssa.Return) []Fact {
+	if len(r.Results) == 0 {
+		return nil
+	}
+	rv := retval(r, len(r.Results)-1)
+	if isNilConst(rv) || rv.Type().String() != "error" {
+		return nil
+	}
+	call := errCallOf(rv)
+	if call == nil || call.Parent() != e.Fn {
+		return nil
+	}
+	why := e.Fn.Name() + ":" + e.P.InstrPos(r) + " (tail call)"
+	out := []Fact{{Atom: "ok:" + e.callTerm(call), Pos: true, Why: why, Call: call, Env: e}}
+	return append(out, e.calleeSuccessFacts(call, why)...)
 }
 
 // boolReturnFacts: what every way of returning `truth` from the boolean function guarantees: the facts at the return
 // block plus, for a non-constant returned expression, what that expression being `truth` means.
 func (e *Env) boolReturnFacts(truth bool, why string) []Fact {
+	return e.boolReturnFactsIdx(0, truth, why)
+}
+
+// boolReturnFactsIdx: the same for the idx-th (boolean) result of a function with several results.
+func (e *Env) boolReturnFactsIdx(idx int, truth bool, why string) []Fact {
 	var sets []map[string]Fact
 	for _, r := range returnsOf(e.Fn) {
-		if len(r.Results) != 1 {
+		if idx >= len(r.Results) {
 			return nil
 		}
-		rv := retval(r, 0)
+		rv := retval(r, idx)
 		k, isConst := boolConst(rv)
 		if isConst && k != truth {
 			continue
